@@ -61,8 +61,8 @@ def payload_reads(g, x):
                 for s in g.walk(a):
                     if s[0] in ('ref', 'fld') and any('QueueEntry.val' in p for p in g.locpaths(s)):
                         hit = True
-            if hit:
-                out.append((n.id, 'view'))
+            if hit and (x.rep(n.id), 'view') not in out:
+                out.append((x.rep(n.id), 'view'))
     return out
 
 
@@ -145,7 +145,7 @@ def _protocol(ctx, g, x, root, fl, view):
         for h in sorted(IDX):
             if R in x.reach_from(h, blocked=good | (IDX - {h})):
                 bad.append(x.describe(h))
-        if R in g.reachable(None, blocked=good | IDX):
+        if R in x.reachable_entry(blocked=good | IDX):
             bad.append('entry')
         ctx.add(tagR + 'a', 'T-DOM', fn, not bad and bool(good),
                 'payload read only after the slot tag was seen equal to the position of this attempt' if (not bad and good) else
@@ -163,7 +163,7 @@ def _protocol(ctx, g, x, root, fl, view):
                         sub=sub + '|tagload')
         if not view and flavour_pins(ctx, fl):
             # ---- P3b/c pins
-            okc = R not in g.reachable(None, blocked=inc_n | single_edges)
+            okc = R not in x.reachable_entry(blocked=inc_n | single_edges)
             ctx.add('P3c', 'T-GUARD', fn, okc, 'the pin is skipped only on the consumers==1 edge' if okc else
                     'payload read reachable without a pin and without having seen consumers==1', flavour=fl, where=where, sub=sub)
             if incs:
@@ -264,11 +264,11 @@ def _protocol(ctx, g, x, root, fl, view):
                     'plain-store commit %s reachable in Multi reader mode' % x.describe(C), flavour=fl, where=where, sub=sub + '|mode')
         # success -> Ok(value read)
         oks_ = [(nid, si, rv) for (nid, si, rv) in x.aggs(r'result::Result::Ok$')
-                if any(r_ in g.call_nodes_in(x.agg_expr(nid, si)) for r_ in Rn) or view]
+                if any(r_ in x.calls_in(x.agg_expr(nid, si)) for r_ in Rn) or view]
     oknodes = []
     for (nid, si, rv) in x.aggs(r'result::Result::Ok$'):
         e = x.agg_expr(nid, si)
-        cn = g.call_nodes_in(e)
+        cn = x.calls_in(e)
         if cn & Rn:
             oknodes.append(nid)
     if not view:
@@ -377,7 +377,7 @@ def _protocol(ctx, g, x, root, fl, view):
                 ctx.add('P4', 'T-WHO', g.nodes[U].fn, not drops, 'clone-out flavour: a viewed value is never destroyed by the reader' if not drops else
                         'clone-out flavour: reader destroys a slot value other streams may still read', flavour=fl, where=g.where(U), sub=sub + '|destroy')
             # result of Ok is the closure's result
-            okr = any(U in g.call_nodes_in(x.agg_expr(nid, si)) for (nid, si, rv) in x.aggs(r'result::Result::Ok$'))
+            okr = any(U in x.calls_in(x.agg_expr(nid, si)) for (nid, si, rv) in x.aggs(r'result::Result::Ok$'))
             ctx.add('P4', 'T-FLOW', g.nodes[U].fn, okr, 'Ok carries the closure result', flavour=fl, where=g.where(U), sub=sub + '|result')
 
 
@@ -391,7 +391,7 @@ def _disposals(g, x, fl, Rn):
     out = set()
     if fl == 'MPMC':
         for n in x.ext_calls(r'mem::forget$'):
-            if g.call_nodes_in(g.call_args(n)[0]) & Rn:
+            if x.calls_in(g.call_args(n)[0]) & Rn:
                 out.add(n)
     else:
         out |= _value_drops(g, x, Rn)
@@ -402,11 +402,11 @@ def _value_drops(g, x, Rn):
     out = set()
     for n in g.nodes:
         if n.id in g.live() and n.kind == 'block' and n.term['k'] == 'drop':
-            if g.call_nodes_in(g.ev_place(n.inst, n.term['pl'])) & Rn:
+            if x.calls_in(g.ev_place(n.inst, n.term['pl'])) & Rn:
                 out.add(n.id)
     for n in x.ext_calls(r'mem::drop$|ptr::drop_in_place$'):
         a = g.call_args(n)
-        if a and g.call_nodes_in(a[0]) & Rn:
+        if a and x.calls_in(a[0]) & Rn:
             out.add(n)
     return out
 
